@@ -1,5 +1,5 @@
 SPECIFICATION Spec
 CONSTRAINT TrackL
-INVARIANTS NoDoubleHandout SlotsAreWhatIsHeld QuiescentCount NoLostUpdate
+INVARIANTS NoDoubleHandout SlotsAreWhatIsHeld QuiescentCount NoLostUpdate MaintenanceContracts QueueHandsOutOnce OverflowExact
 POSTCONDITION PrintMaxL
 CHECK_DEADLOCK FALSE
